@@ -1,4 +1,5 @@
 import Sismic.Proofs.C04
+import Sismic.Proofs.LegalMulti
 /-!
 # Property C04 — non-determinism and conflicts are reported, never silently resolved
 
@@ -39,6 +40,20 @@ theorem same_state_is_nonDeterministic (c : Chart) (a b : Trans) (rest : List Tr
   rw [nonDeterminism_iff]
   refine ⟨by simp, (a, b), ?_, same_source_nonDet c a b h⟩
   simp [pairs]
+
+/-- **What "no error" means in terms of the statechart's structure.**  For a well-formed chart: if
+    several fired transitions (none of whose sources is an ancestor of another's: inner-first
+    selection) are accepted, they are pairwise *separated* — there is an orthogonal state with two
+    distinct regions, each containing the source *and* the target of one of the two — and they are
+    processed in the documented order. -/
+theorem accepted_are_separated (c : Chart) (h : WFChart c) (sel ts : List Trans)
+    (hs : sortTransitions c sel = .ok ts) (hlen : 2 ≤ sel.length)
+    (hna : ∀ a ∈ sel, ∀ b ∈ sel, ¬ Anc c a.source b.source) :
+    ts.Pairwise (Separated c) ∧ ts = isort (leTrans c) sel := by
+  refine ⟨(sort_separated c h sel ts hs hlen hna).1, ?_⟩
+  rcases (no_error_iff c sel ts).mp hs with ⟨h1, _⟩ | ⟨_, _, _, h2⟩
+  · omega
+  · exact h2
 
 variable {σ ω : Type} (env : Env σ ω)
 
